@@ -767,6 +767,10 @@ func decodeResizeSource(rs *internal.ResizeSource, m *pilosa.ResizeSource) {
 }
 
 func decodeSchema(s *internal.Schema, m *pilosa.Schema) {
+	if s == nil {
+		// the field is absent from the message: leave m zero-valued
+		return
+	}
 	m.Indexes = make([]*pilosa.IndexInfo, len(s.Indexes))
 	decodeIndexes(s.Indexes, m.Indexes)
 }
@@ -802,6 +806,10 @@ func decodeField(f *internal.Field, m *pilosa.FieldInfo) {
 }
 
 func decodeFieldOptions(options *internal.FieldOptions, m *pilosa.FieldOptions) {
+	if options == nil {
+		// the field is absent from the message: leave m zero-valued
+		return
+	}
 	m.Type = options.Type
 	m.CacheType = options.CacheType
 	m.CacheSize = options.CacheSize
@@ -821,6 +829,10 @@ func decodeNodes(a []*internal.Node, m []*pilosa.Node) {
 }
 
 func decodeClusterStatus(cs *internal.ClusterStatus, m *pilosa.ClusterStatus) {
+	if cs == nil {
+		// the field is absent from the message: leave m zero-valued
+		return
+	}
 	m.State = cs.State
 	m.ClusterID = cs.ClusterID
 	m.Nodes = make([]*pilosa.Node, len(cs.Nodes))
@@ -828,6 +840,10 @@ func decodeClusterStatus(cs *internal.ClusterStatus, m *pilosa.ClusterStatus) {
 }
 
 func decodeNode(node *internal.Node, m *pilosa.Node) {
+	if node == nil {
+		// the field is absent from the message: leave m zero-valued
+		return
+	}
 	m.ID = node.ID
 	decodeURI(node.URI, &m.URI)
 	m.IsCoordinator = node.IsCoordinator
@@ -835,6 +851,10 @@ func decodeNode(node *internal.Node, m *pilosa.Node) {
 }
 
 func decodeURI(i *internal.URI, m *pilosa.URI) {
+	if i == nil {
+		// the field is absent from the message: leave m zero-valued
+		return
+	}
 	m.Scheme = i.Scheme
 	m.Host = i.Host
 	m.Port = uint16(i.Port)
@@ -853,6 +873,10 @@ func decodeCreateIndexMessage(pb *internal.CreateIndexMessage, m *pilosa.CreateI
 }
 
 func decodeIndexMeta(pb *internal.IndexMeta, m *pilosa.IndexOptions) {
+	if pb == nil {
+		// the field is absent from the message: leave m zero-valued
+		return
+	}
 	m.Keys = pb.Keys
 	m.TrackExistence = pb.TrackExistence
 }
@@ -921,8 +945,12 @@ func decodeNodeEventMessage(pb *internal.NodeEventMessage, m *pilosa.NodeEvent) 
 
 func decodeNodeStatus(pb *internal.NodeStatus, m *pilosa.NodeStatus) {
 	m.Node = &pilosa.Node{}
-	m.Indexes = decodeIndexStatuses(pb.Indexes)
 	m.Schema = &pilosa.Schema{}
+	if pb == nil {
+		// the field is absent from the message: leave m empty
+		return
+	}
+	m.Indexes = decodeIndexStatuses(pb.Indexes)
 	decodeSchema(pb.Schema, m.Schema)
 }
 
